@@ -50,7 +50,8 @@ Theorem C07_names_true : forall inp start ps file s e kids,
   kids = [] /\
   name_at (skipn (N.to_nat s) inp) (iname (to_ident inp file p)) = true /\
   (no_lone_cr inp = true ->
-   ipos (to_ident inp file p) = mkPos (fst (spec_line_col inp s)) (snd (spec_line_col inp s)) file false).
+   ipos (to_ident inp file p) = mkPos (fst (spec_line_col inp s)) (snd (spec_line_col inp s)) file false
+   /\ ck_ident inp file (to_ident inp file p) = true).
 Proof. exact name_pairs_true. Qed.
 Print Assumptions C07_names_true.
 
@@ -65,6 +66,24 @@ Theorem C07_keywords_true : forall inp start ps file r l s e kids,
   kw_name (to_keyword inp file p) = l /\
   (is_name l = true -> name_at (skipn (N.to_nat s) inp) l = true) /\
   (no_lone_cr inp = true ->
-   kw_pos (to_keyword inp file p) = mkPos (fst (spec_line_col inp s)) (snd (spec_line_col inp s)) file false).
+   kw_pos (to_keyword inp file p) = mkPos (fst (spec_line_col inp s)) (snd (spec_line_col inp s)) file false
+   /\ (is_name l = true -> ck_kw inp file (kw_pos (to_keyword inp file p)) l = true)).
 Proof. exact keyword_pairs_true. Qed.
 Print Assumptions C07_keywords_true.
+
+(** spans: the pairs of the tree are ordered, children lie inside their parent, everything inside the text *)
+Theorem C07_pair_spans_wf : forall inp start ps,
+  parse_pairs start inp = Ok ps -> exists hi, wf_forest 0 hi ps /\ (N.to_nat hi <= length inp)%nat.
+Proof. intros inp start ps H. rewrite parse_pairs_unfold in H. exact (parse_wf _ _ _ _ H). Qed.
+Print Assumptions C07_pair_spans_wf.
+
+(** any pair, any rule: at the position the builder reports for it (specification's line terminators)
+    the input continues with exactly the text the builder takes from it *)
+Theorem C07_pair_text_at_position : forall inp start ps (p : pair rule) file,
+  parse_pairs start inp = Ok ps ->
+  in_forest p ps ->
+  no_lone_cr inp = true ->
+  not_at_terminator (skipn (N.to_nat (pair_start p)) inp) ->
+  at_pos inp file (to_pos inp file p) (fun t => punct_at t (as_str inp p)) = true.
+Proof. exact pair_text_at_position. Qed.
+Print Assumptions C07_pair_text_at_position.
